@@ -177,6 +177,8 @@ def remodeled(text):
 def hist_ops(nfiles, with_remodel):
     ops = [("modify", i) for i in range(nfiles)] + [("delete", i) for i in range(nfiles)] + [("deldir",)]
     ops += [("restore", None), ("restore", "go"), ("restore", "stop")]
+    # a second backup request under the default name, given explicitly / omitted / empty: refused, nothing changes
+    ops += [("backup", "default_back"), ("backup", None), ("backup", "")]
     if with_remodel:
         # remodel is run on all tasks: run_remodel's task filter keys on BIDS 'task-<name>' entities while
         # BackupManager.get_task keys on 'task_<name>', so a task-filtered remodel has no common file naming (observation)
@@ -215,6 +217,12 @@ def run_history(rec, bm_mod, cli, root, selection, hist):
                 shutil.rmtree(os.path.join(root, "sub-01"), ignore_errors=True)
                 for rel in [r for r in model if r.startswith("sub-01/")]:
                     model.pop(rel)
+            elif op[0] == "backup":
+                present = [os.path.join(root, r) for r in sorted(model)]
+                made = bm_mod.BackupManager(root).create_backup(present, backup_name=op[1])
+                if made:
+                    rec.violation("C18:history:backup:existing-backup-name-not-refused", name=repr(op[1]), **where)
+                    return
             elif op[0] == "restore":
                 args = [root] + (["-t", op[1]] if op[1] else [])
                 cli["restore"].main(args)
@@ -263,13 +271,18 @@ def worker_hist(rec, shard, nshards, scratch, depth, seed):
             for hist in itertools.product(ops, repeat=d):
                 cases.append((selection, hist))
     root = os.path.join(scratch, f"hist{shard}")
+    # the task filter looks at file names only: a data root whose own name mentions a task must behave the same
+    root_task = os.path.join(scratch, f"h{shard}_task_stop_pilot")
     for ci in core.shard_order(len(cases), shard, nshards, seed):
         selection, hist = cases[ci]
         with contextlib.redirect_stdout(io.StringIO()):
             run_history(rec, bm_mod, cli, root, selection, hist)
+            if any(o[0] == "restore" and o[1] for o in hist):
+                run_history(rec, bm_mod, cli, root_task, selection, hist)
         if ci % 1501 == 0:
             rec.sample({"selection": list(selection), "history": [list(o) for o in hist]})
     shutil.rmtree(root, ignore_errors=True)
+    shutil.rmtree(root_task, ignore_errors=True)
 
 
 def run(ctx):
